@@ -47,3 +47,47 @@ __CPROVER_ensures((self->m_storage.index == 1 && NV_READABLE(self->m_storage.a1.
 __CPROVER_ensures((self->m_storage.index == 1 && !NV_READABLE(self->m_storage.a1.m_value)) ==> nv_thrown) \
 __CPROVER_ensures(self->m_storage.index != 1 ==> nv_thrown)
 #endif
+
+/* ------------------------------------------------------------------ parameter_t::make_enum_<tenum>(name, value)  (header template)
+ * "the domain list stored in the parameter is exactly the table's names": for ANY table (symbolic length; the names as string ids)
+ * the parameter is constructed -- by the REAL constructor parameter_t(string_t, enum_t) and ::update(enum_t), inlined -- from
+ * enum_t{scat(value), domain} where domain has the table's length and domain[g] is the g-th name (ghost position nv_g_str). */
+#ifdef NV_MAKE_ENUM
+struct nv_eopt2 { int64_t first; struct nv_str second; int64_t nv_pad[2]; };   /* std::pair<T, const char*>, the name as a string id (32 bytes: see engine/README) */
+struct nv_etab2 { struct nv_eopt2* p; int64_t n; };      /* enum_map_t<T> */
+struct nv_etab2 NV_MAKE_ENUM_STATIC;                      /* the function-local `static const auto options = enum_string<T>()` */
+struct nv_str make_enum_name(struct nv_eopt2* v);         /* the extracted lambda [](const auto& v) { return v.second; } */
+void parameter_ctor_enum(struct nv_parameter* self, struct nv_str name, struct nv_enum param);
+/* ASSUMED: strings_t{n} holds n strings */
+static struct nv_strs nv_strs_sized(uint64_t n)
+{
+  struct nv_strs v; v.n = (int64_t)n;
+  v.p = malloc((n > 0 ? n : 1) * sizeof(struct nv_str));
+  __CPROVER_assume(v.p != NULL);
+  return v;
+}
+/* ASSUMED contract of std::transform(first, last, d_first, op): d_first[i] = op(first[i]) for every i in [0, last - first) (stated at
+ * the ghost position, op = the real lambda); the destination range must exist */
+static struct nv_str* nv_transform_names(struct nv_eopt2* first, struct nv_eopt2* last, struct nv_str* d)
+{
+  int64_t n = last - first;
+  __CPROVER_assert(n == 0 || __CPROVER_rw_ok(d, n * sizeof(struct nv_str)), "std::transform: the destination holds last - first elements");
+  if (0 <= nv_g_str && nv_g_str < n) d[nv_g_str] = make_enum_name(&first[nv_g_str]);
+  return d + n;
+}
+static struct nv_parameter nv_parameter_make_enum(struct nv_str name, struct nv_enum e)
+{
+  struct nv_parameter r;
+  parameter_ctor_enum(&r, name, e);
+  return r;
+}
+#define NV_TAB NV_MAKE_ENUM_STATIC
+#define NV_CONTRACT_make_enum_ \
+__CPROVER_requires(!nv_thrown && NV_TAB.n >= 0 && NV_TAB.n <= NV_MAXN && __CPROVER_is_fresh(NV_TAB.p, (NV_TAB.n + 1) * sizeof(struct nv_eopt2))) \
+__CPROVER_assigns(nv_thrown, nv_w_find) \
+__CPROVER_ensures(!NV_LISTED(NV_ARG_make_enum__1) ==> nv_thrown) \
+__CPROVER_ensures(!nv_thrown ==> (NV_RET.m_name.id == NV_ARG_make_enum__0.id && NV_RET.m_storage.index == 1 && \
+                  NV_RET.m_storage.a1.m_value.id == NV_SCAT(NV_ARG_make_enum__1).id && NV_RET.m_storage.a1.m_domain.n == NV_TAB.n)) \
+__CPROVER_ensures((!nv_thrown && 0 <= nv_g_str && nv_g_str < NV_TAB.n) ==> NV_RET.m_storage.a1.m_domain.p[nv_g_str].id == NV_TAB.p[nv_g_str].second.id) \
+__CPROVER_ensures(!nv_thrown ==> NV_ENUM_HAS(NV_RET.m_storage.a1, nv_w_find, NV_RET.m_storage.a1.m_value))
+#endif
